@@ -11,7 +11,7 @@
                colons outside brackets, blanks/controls, unbalanced brackets) -- only the generic clauses apply
      "na"      not an absolute URI with an authority (urn:..., "*", no scheme)
    The statement never demands acceptance, so there is no "must accept" clause. *)
-EXTENDS Naturals, Sequences, TLC, Wide
+EXTENDS Naturals, Sequences, SequencesExt, TLC, Wide
 IsDigit(b) == b >= 48 /\ b <= 57
 IsAlpha(b) == (b >= 65 /\ b <= 90) \/ (b >= 97 /\ b <= 122)
 Lower(b) == IF b >= 65 /\ b <= 90 THEN b + 32 ELSE b
@@ -76,4 +76,13 @@ HostOk(h) == /\ h # <<>>
              /\ \A i \in 1..Len(h) : ~(h[i] >= 65 /\ h[i] <= 90)
              /\ h[1] # 46
              /\ NoDotDot(h, 1)
+
+\* "Re-parsing the canonical form yields the same path": the same up to percent-encoding of bytes that can never occur
+\* literally in a URI (RFC 3986 6.2.2.2 equivalence; controls, blanks, 8-bit, " < > \ ^ ` { | } [ ]).  Delimiters and the other
+\* legal characters (unreserved, sub-delims, ":" "@" "/" "?" "#") and existing "%" are compared literally, so a canonical form
+\* that turns "?" into "%3F" changes the path.
+Literal(b) == IsAlpha(b) \/ IsDigit(b) \/ b \in {45, 46, 95, 126, 33, 36, 38, 39, 40, 41, 42, 43, 44, 59, 61, 58, 64, 47, 63, 35, 37}
+HexUp(n) == IF n < 10 THEN 48 + n ELSE 55 + n
+NormPath(p) == FlattenSeq([i \in 1..Len(p) |-> IF Literal(p[i]) THEN <<p[i]>> ELSE <<37, HexUp(p[i] \div 16), HexUp(p[i] % 16)>>])
+SamePath(p, q) == NormPath(p) = NormPath(q)
 ====
